@@ -227,9 +227,11 @@ pub fn gen_sort(rng: &mut Rng) -> Vec<Value> {
       _ => json!({"field": f, "order": "desc"}),
     }
   };
-  match rng.below(10) {
+  match rng.below(12) {
     0 | 1 | 2 => vec![],
     3 => vec![json!({"field":"_score","order":"desc"})],
+    // led by the score, ties broken by a field (not the fast path, but "a better score sorts first")
+    10 | 11 => vec![json!({"field":"_score","order":"desc"}), one(rng)],
     4 | 5 | 6 => vec![one(rng)],
     7 | 8 => vec![one(rng), one(rng)],
     _ => vec![one(rng), one(rng), one(rng)],
